@@ -21,7 +21,7 @@ import math
 from fractions import Fraction
 import numpy as np
 import z3
-from ndvc import solve
+from ndvc import solve, xcheck
 from ndvc.sym import R, C, real, cplx, lift, CTX, explore, NeedsConcrete, UF1, ceq, parts
 from ndvc.arr import SymArr, asobj, wrap
 from ndvc.overlay import installed, NpProxy
@@ -108,6 +108,22 @@ def run_ring():
                 solve.prove('ring:%s:e1-component' % nm, ceq(ou, su), [])
                 solve.prove('ring:%s:e2-component' % nm, ceq(ov, sv), [])
             solve.twin('ring:mul-components-swapped', ceq(comps(A * Bq)[0], va * vb), [])
+            # engine cross-check: the same operations on floats with the real numpy
+            from fractions import Fraction as Fr
+            vals = {'z1': (0.75, -0.5), 'z2': (0.25, 1.5), 'w1': (-1.25, 0.5), 'w2': (2.0, -0.75), 'c': (0.5, 1.25)}
+            asg = {'r': Fr(-7, 4)}
+            for k_, (a_, b_) in vals.items():
+                asg[k_ + '.re'] = Fr(a_); asg[k_ + '.im'] = Fr(b_)
+            NAT = {'add': lambda A, B, r, c: A + B, 'sub': lambda A, B, r, c: A - B, 'mul': lambda A, B, r, c: A * B, 'neg': lambda A, B, r, c: -A,
+                   'add-real': lambda A, B, r, c: A + r, 'radd-real': lambda A, B, r, c: r + A, 'mul-real': lambda A, B, r, c: A * r,
+                   'rmul-real': lambda A, B, r, c: r * A, 'sub-real': lambda A, B, r, c: A - r, 'rsub-real': lambda A, B, r, c: r - A,
+                   'add-complex': lambda A, B, r, c: A + c, 'rmul-complex': lambda A, B, r, c: c * A, 'rsub-complex': lambda A, B, r, c: c - A,
+                   'conjugate': lambda A, B, r, c: A.conjugate()}
+            for nm, out, su, sv in cases:
+                def native(nm=nm):
+                    from numdifftools.multicomplex import Bicomplex
+                    return NAT[nm](Bicomplex(complex(*vals['z1']), complex(*vals['z2'])), Bicomplex(complex(*vals['w1']), complex(*vals['w2'])), -1.75, complex(*vals['c']))
+                xcheck.defer('ring:%s:engine==CPython' % nm, out, asg, native, rtol=1e-12, atol=1e-12)
             # reduction to the ordinary complex operation when z2 == 0
             A0 = mc.Bicomplex(z1, 0); B0 = mc.Bicomplex(w1, 0)
             for nm, out, want in [('add', A0 + B0, z1 + w1), ('mul', A0 * B0, z1 * w1), ('sub', A0 - B0, z1 - w1)]:
@@ -123,6 +139,7 @@ def run_ring():
                             z3.And(ceq(out.z1[k], asobj(sc.z1).ravel()[0]), ceq(out.z2[k], asobj(sc.z2).ravel()[0])), [])
         finally:
             mc._TINY = old
+    xcheck.flush()
     return {}
 
 
